@@ -1,85 +1,34 @@
 (* C15/Corr.v -- correspondence checkers (executed at Q by the shards). *)
 From Coq Require Import ZArith QArith List Bool.
-From Verif Require Import Base.Num Base.Vec Base.Check C15.Syntax C15.Model.
+From Verif Require Import Base.Num Base.Vec Base.Check C15.Syntax C15.Model C15.Call.
 Import ListNotations.
 
-(* which public factory: nearest_interpolator | linear_interpolator | per_axis_interpolator *)
-Inductive ikind := KNearest | KLinear | KPerAxis.
-(* value dtype class: floating (float32/64, complex as two runs), integer, string (as codes) *)
-Inductive vdtype := DFloat | DInt | DStr.
-(* calling convention: single point / point array (both: a list of points) or mesh grid *)
-Inductive inp := IPoints (pts : list (list Q)) | IMesh (axes : list (list Q)).
+(* implementation outcome: values (real and imaginary parts), non-finite, or an error class *)
 Inductive outc := OVals (re im : list Q) | ONonFinite | OTypeErr | OValueErr | OOtherErr.
 
 Record case := {
   k_kind : ikind; k_ss : list scheme; k_cvs : list (list Q); k_dt : vdtype; k_cplx : bool;
-  k_vre : list Q; k_vim : list Q; k_inp : inp;
+  k_vre : list Q; k_vim : list Q; k_inp : @input Q;
   (* out= argument, if given: its shape and whether its dtype equals the values' dtype *)
   k_outarg : option (list nat * bool);
   (* measured variants of the two recorded defects (true = defect present) *)
-  k_int_raises : bool;      (* per-axis evaluation on integer values raises *)
-  k_mesh1_raises : bool;    (* mesh grid with exactly one point along the first axis raises *)
+  k_int_raises : bool; k_mesh1_raises : bool;
   k_out : outc }.
 
 Definition tol : Q := 1 # 1000000000000.
 
-Definition shape_of (cvs : list (list Q)) : list nat := map (@length Q) cvs.
+Definition call (k : case) (flat : list Q) : @outcome Q :=
+  interp_call {| int_raises := k_int_raises k; mesh1_raises := k_mesh1_raises k |}
+              (k_kind k) (k_ss k) (k_cvs k) (k_dt k) flat (k_inp k) (k_outarg k).
 
-Definition schemes_of (k : case) : list scheme :=
-  match k_kind k with
-  | KLinear => map (fun _ => SLinear) (k_cvs k)
-  | KNearest => map (fun _ => SNearest) (k_cvs k)
-  | KPerAxis => k_ss k
-  end.
-
-Definition run (k : case) (flat : list Q) : list Q :=
-  let v := vget (shape_of (k_cvs k)) flat in
-  match k_kind k, k_inp k with
-  | KNearest, IPoints pts => nearest_points (k_cvs k) v pts
-  | KNearest, IMesh m => nearest_mesh (k_cvs k) v m
-  | _, IPoints pts => peraxis_points (schemes_of k) (k_cvs k) v pts
-  | _, IMesh m => peraxis_mesh (schemes_of k) (k_cvs k) v m
-  end.
-
-(* mesh grid of d >= 2 axes with one point along the first axis, not all axes single *)
-Definition mesh1 (i : inp) : bool :=
-  match i with
-  | IMesh ((x0 :: nil) :: (_ :: _) as m) => existsb (fun xs => negb (length xs =? 1)%nat) m
-  | _ => false
-  end.
-
-Definition has_linear (ss : list scheme) : bool :=
-  existsb (fun s => match s with SLinear => true | SNearest => false end) ss.
-
-(* integer / string values: only index-based evaluation is defined.  The per-axis evaluator
-   does arithmetic on the values (TypeError) -- for all-'nearest' schemes that is the recorded
-   defect [k_int_raises]; once repaired, all-'nearest' per-axis evaluation returns node values. *)
-(* _check_interp_input / _Interpolator.__call__ reject (ValueError): points whose dimension is not
-   the grid dimension, and an out array of the wrong shape or dtype *)
-Definition out_shape (i : inp) : list nat :=
-  match i with IPoints pts => [length pts] | IMesh m => map (@length Q) m end.
-Definition nats_eqb (a b : list nat) : bool := all2 Nat.eqb a b.
-Definition malformed (k : case) : bool :=
-  let d := length (k_cvs k) in
-  (match k_inp k with
-   | IPoints pts => existsb (fun p => negb (length p =? d)%nat) pts
-   | IMesh m => negb (length m =? d)%nat
-   end)
-  || match k_outarg k with
-     | Some (sh, dt_ok) => negb (nats_eqb sh (out_shape (k_inp k))) || negb dt_ok
-     | None => false
-     end.
-
+(* complex values: the real and the imaginary parts are interpolated separately
+   (Props.interpolation_linear_in_values) *)
 Definition expected (k : case) : outc :=
-  if malformed k then OValueErr
-  else if k_mesh1_raises k && mesh1 (k_inp k) then OValueErr
-  else match k_kind k, k_dt k with
-  | KNearest, _ => OVals (run k (k_vre k)) (if k_cplx k then run k (k_vim k) else [])
-  | _, DInt | _, DStr =>
-      if k_int_raises k || has_linear (schemes_of k) then OTypeErr else OVals (run k (k_vre k)) []
-  | _, DFloat =>
-      if degenerate (schemes_of k) (k_cvs k) then ONonFinite
-      else OVals (run k (k_vre k)) (if k_cplx k then run k (k_vim k) else [])
+  match call k (k_vre k) with
+  | Ok r => if k_cplx k then match call k (k_vim k) with Ok i => OVals r i | _ => OOtherErr end else OVals r []
+  | NonFinite => ONonFinite
+  | TypeErr => OTypeErr
+  | ValueErr => OValueErr
   end.
 
 Definition check (k : case) : bool :=
@@ -104,4 +53,4 @@ Record rcase := { r_cvs : list (list Q); r_f : fexpr; r_ss : list scheme; r_mesh
                   r_out : list Q }.
 Definition rcheck (k : rcase) : bool :=
   Qsclose tol tol (r_out k)
-    (peraxis_mesh (r_ss k) (r_cvs k) (vget (shape_of (r_cvs k)) (collocate (feval (r_f k)) (r_cvs k))) (r_mesh k)).
+    (peraxis_mesh (r_ss k) (r_cvs k) (vget (map (@length Q) (r_cvs k)) (collocate (feval (r_f k)) (r_cvs k))) (r_mesh k)).
